@@ -240,19 +240,30 @@ fn run(
     args.max_padding_frac_server = sc.fracs[2];
     args.max_blocking_frac_server = sc.fracs[3];
     args.insecure_rng_seed = Some(sc.seed);
-    if hooks {
-        verif::enable();
-    }
-    let r = catch_unwind(AssertUnwindSafe(|| sim_advanced(mc, ms, &mut sq, &args)));
-    let recs = verif::take();
-    verif::disable();
+    // the simulation runs in its own thread (the hook log is thread-local): a run that
+    // never returns is recorded as a hang instead of stalling the driver
+    let (tx, rx) = std::sync::mpsc::channel();
+    let (mc, ms) = (mc.to_vec(), ms.to_vec());
+    std::thread::spawn(move || {
+        if hooks {
+            verif::enable();
+        }
+        let r = catch_unwind(AssertUnwindSafe(|| sim_advanced(&mc, &ms, &mut sq, &args)));
+        let recs = verif::take();
+        verif::disable();
+        let _ = tx.send((r.map_err(panic_msg), recs));
+    });
+    let (r, recs) = match rx.recv_timeout(Duration::from_secs(20)) {
+        Ok(x) => x,
+        Err(_) => return Err("HANG: sim_advanced did not return within 20 s".to_string()),
+    };
     let lines: Vec<Value> = recs.iter().map(|r| rec_json(r, &clock)).collect();
     match r {
         Ok(trace) => {
             let out: Vec<Value> = trace.iter().map(|e| out_event(e, &clock)).collect();
             Ok((lines, out, clock.subus.get()))
         }
-        Err(e) => Err(panic_msg(e)),
+        Err(e) => Err(e),
     }
 }
 
@@ -489,8 +500,12 @@ fn main() {
             }
         }
     }
+    let mut n_hang = 0u64;
     for (id, (sc, light)) in list.into_iter().enumerate() {
         let id = id as u64;
+        if n_hang >= 4 {
+            break; // each hang leaves a spinning thread behind
+        }
         let light = light;
         let rmc: Vec<Machine> = sc.mc.iter().map(|m| m.to_machine_unchecked()).collect();
         let rms: Vec<Machine> = sc.ms.iter().map(|m| m.to_machine_unchecked()).collect();
@@ -560,6 +575,10 @@ fn main() {
                 }
             }
         }
+        n_hang += lines
+            .iter()
+            .filter(|l| l["k"] == "panic" && l["msg"].as_str().map(|m| m.starts_with("HANG")).unwrap_or(false))
+            .count() as u64;
         if subus {
             n_subus += 1;
             continue;
@@ -573,6 +592,8 @@ fn main() {
     println!(
         "{}",
         json!({"scenarios": scenarios, "written": n_written, "events": n_ev, "actions": n_act,
-               "panics": n_panic, "sub_microsecond_skipped": n_subus, "directed": n_directed})
+               "panics": n_panic, "sub_microsecond_skipped": n_subus, "directed": n_directed, "hangs": n_hang})
     );
+    // threads stuck in a simulation are abandoned
+    std::process::exit(0);
 }
